@@ -13,6 +13,7 @@ import (
 
 	"github.com/scionproto/scion/pkg/addr"
 	libepic "github.com/scionproto/scion/pkg/experimental/epic"
+	"github.com/scionproto/scion/pkg/slayers"
 	"github.com/scionproto/scion/pkg/slayers/path/epic"
 	"github.com/scionproto/scion/router"
 
@@ -428,6 +429,77 @@ func sequences(rng *vgen.Rand, rc *rcfg) {
 	}
 }
 
+// bufferSequences: valid EPIC packets at the penultimate / last hop field through ONE reused
+// packet processor, with source hosts of 16, 4, 12 and 8 bytes and payloads of different
+// sizes in changing order (the processor verifies every hop validation field in the same
+// MAC input buffer: what a longer, earlier input left there must not matter).
+func bufferSequences(rng *vgen.Rand, rc *rcfg, nPkts int) {
+	proc := rc.rt.DP.VerifNewProcessor()
+	lens := []int{16, 16, 4, 16, 12, 16, 8, 4, 16, 16, 12, 8, 16, 4, 12, 16}
+	for i := 0; i < nPkts; i++ {
+		r := rng.Fork(uint64(i))
+		kind := "inbound"
+		if i%2 == 1 {
+			kind = "transit"
+		}
+		sc := rtgen.GenValid(r, rc.cfg, nowSec, kind)
+		if !crossesOver(sc) {
+			cutAfter(sc.Desc, 1)
+		}
+		l := lens[i%len(lens)]
+		raw := r.Bytes(l)
+		raw[0] = 0xfd
+		sc.Desc.Src = rtgen.Host{Type: uint8(l/4 - 1), Raw: raw} // type code = length bits only (an IP for 4 / 16)
+		sc.Desc.L4 = rtgen.UDP(uint16(r.Range(1025, 65000)), uint16(r.Range(1025, 65000)), r.Bytes(r.Intn(60)))
+		sc.Kind = fmt.Sprintf("bufseq-src%d/", l) + sc.Kind
+		run.Tally(fmt.Sprintf("buffer-sequence:src-host-bytes=%d", l))
+		emitEpicOn(proc, "buffer-sequence", rc, sc, drawPlan(r))
+	}
+}
+
+// reusedBufferCases calls the real libepic.CalcMac / VerifyHVF with ONE buffer for a series of
+// inputs of changing length (source hosts of 16, 16, 12, 8, 4, 16 ... bytes) and compares every
+// tag with the reference: AES-CBC over the documented input block (zero padding to the block
+// size) laid out by the harness; the block itself is compared with the model (CMacIn).
+func reusedBufferCases(r *vgen.Rand, n int) {
+	buf := make([]byte, libepic.MACBufferSize)
+	lens := []int{16, 16, 12, 8, 4, 16, 4, 12, 16, 8, 16, 16}
+	for i := 0; i < n; i++ {
+		l := lens[i%len(lens)]
+		f := rtgen2.HVFields{SrcType: uint8(l/4 - 1), InfoTS: uint32(r.U64()), PktTS: uint32(r.U64()), Counter: uint32(r.U64()),
+			SrcIA: r.U64(), PayLen: uint16(r.U64()), SrcRaw: r.Bytes(l)}
+		auth := r.Bytes(16)
+		if !run.Want() { // the buffer history must be the same in a replay
+			s := &slayers.SCION{SrcIA: addr.IA(f.SrcIA), SrcAddrType: slayers.AddrType(f.SrcType), RawSrcAddr: f.SrcRaw, PayloadLen: f.PayLen}
+			libepic.CalcMac(auth, epic.PktID{Timestamp: f.PktTS, Counter: f.Counter}, s, f.InfoTS, buf)
+			run.Skip()
+			continue
+		}
+		in := rtgen2.MacInput(f)
+		ref, _ := rtgen2.CBCMac(auth, in)
+		s := &slayers.SCION{SrcIA: addr.IA(f.SrcIA), SrcAddrType: slayers.AddrType(f.SrcType), RawSrcAddr: f.SrcRaw, PayloadLen: f.PayLen}
+		pid := epic.PktID{Timestamp: f.PktTS, Counter: f.Counter}
+		m, err := libepic.CalcMac(auth, pid, s, f.InfoTS, buf)
+		var real [4]byte
+		copy(real[:], m)
+		verr := libepic.VerifyHVF(auth, pid, s, f.InfoTS, ref[:], buf)
+		run.Tally(fmt.Sprintf("reused-buffer:src-host-bytes=%d", l))
+		id := run.Add("reused-buffer", vgen.App("RouterEpic.CMacIn", vgen.N(uint64(f.SrcType)), vgen.N(uint64(f.InfoTS)),
+			vgen.N(uint64(f.PktTS)), vgen.N(uint64(f.Counter)), vgen.N(f.SrcIA), rtgen2.BytesTerm(f.SrcRaw),
+			vgen.N(uint64(f.PayLen)), rtgen2.BytesTerm(in)),
+			fmt.Sprintf("reused|%d|%x|%x", i, auth, in), true,
+			map[string]any{"step": i, "src_host_bytes": l, "input": hex.EncodeToString(in), "auth": hex.EncodeToString(auth),
+				"calcmac": hex.EncodeToString(real[:]), "reference": hex.EncodeToString(ref[:])})
+		if err != nil || real != ref {
+			run.Violate(id, fmt.Sprintf("libepic.CalcMac with a reused buffer = %x, but the EPIC MAC of this packet's fields "+
+				"(AES-CBC over the documented, zero-padded input block) is %x: the tag depends on an earlier computation", real, ref), nil)
+		}
+		if verr != nil {
+			run.Violate(id, "libepic.VerifyHVF with a reused buffer rejects the correct hop validation field", nil)
+		}
+	}
+}
+
 func drawPlan(r *vgen.Rand) plan {
 	pl := plan{counter: uint32(r.U64())}
 	copy(pl.rnd[:], r.Bytes(8))
@@ -546,7 +618,9 @@ func main() {
 		"runProcessor does): SCION segment change then EPIC within a segment for all 25 link-type pairs and both " +
 		"directions, EPIC segment change then SCION / EPIC within a segment, no change then change, with one-hop " +
 		"packets, refused packets, garbage and peering hops in between - every packet compared with the stateless " +
-		"per-packet model. non-trivial = at the penultimate/last hop the embedded path " +
+		"per-packet model; (7) valid EPIC packets with 16/4/12/8-byte source hosts and varying payloads in changing order " +
+		"through one reused processor (shared MAC input buffer), and the real CalcMac / VerifyHVF called with one reused " +
+		"buffer over inputs of changing length against the AES-CBC reference over the documented zero-padded block. non-trivial = at the penultimate/last hop the embedded path " +
 		"was accepted (EPIC checks reached), elsewhere the packet was forwarded; every timestamp / input-block case"
 	rng := vgen.NewRand(run.Seed)
 	nowSec = time.Now().Unix()
@@ -603,6 +677,10 @@ func main() {
 			sequences(rng.Fork(uint64(780+i)), seqCfg)
 		}
 	}
+	for i := 0; i < run.Count(3, 6); i++ {
+		bufferSequences(rng.Fork(uint64(880+i)), cfgs[i%len(cfgs)], run.Count(16, 400))
+	}
+	reusedBufferCases(rng.Fork(9), run.Count(36, 1200))
 	tsCases(rng.Fork(5), run.Count(180, 5000))
 	macInCases(rng.Fork(6), run.Count(48, 800))
 	run.Prelude = strings.Join(prelude, "\n")
